@@ -1,18 +1,83 @@
 """C15 — RBAC query API agrees with enforcement.
-SPEC on the implementation, for RBAC and RBAC-with-domains models (allow-override, matcher = role membership
-on the subject + equality on the rest), over all users/objects/actions/domains of a small universe:
-  enforce(u,[d],o,a)  <->  some rule of get_implicit_permissions_for_user(u[,d]) has object o and action a;
-  get_implicit_roles_for_user = the roles reachable from the user (independent BFS over the g rules);
-  get_implicit_users_for_permission = once each, exactly the non-role subjects enforce allows;
-  get_users_for_role and get_roles_for_user are inverse views; same per domain."""
+
+SPEC evaluated on the implementation's own observations (it mirrors the theorems of coq/theories/Props/C15.v), for
+RBAC and RBAC-with-domains models (allow-override, matcher = role membership on the subject + equality on the rest),
+for every user / object / action / domain of the case's universe:
+  T1  get_implicit_roles_for_user(u[,d]) = once each, exactly the names reachable from u by >= 1 assignment (of d),
+      computed here by an independent closure over the g rules                         (C15_implicit_roles_is_reach);
+  T2  get_implicit_permissions_for_user(u[,d]) = exactly the p rules (of d) whose subject is u or reachable from u
+                                                                                       (C15_implicit_permissions_exact);
+  T3  enforce(u,[d],o,a)  <->  some rule of get_implicit_permissions_for_user(u[,d]) has object o and action a,
+      whenever everything reachable from u is reachable in fewer than max_hierarchy_level (10) assignments
+                                                                                       (C15_enforce_iff_implicit_permission);
+  T4  get_implicit_users_for_permission = once each, exactly the non-role subjects enforce allows
+                                                                                       (C15_users_for_permission_exact);
+  T5  get_users_for_role / get_roles_for_user (and the _in_domain variants) are inverse views of the g rules (of d),
+      each name once                                                                   (C15_roles_users_inverse);
+  no query raises or fails to terminate on a well-formed policy.
+Every case is also run on the extracted model (oracle "Mgmt") and compared observation by observation."""
 import itertools
+import signal
+
+import casbin
 
 from ..core import Check
 from .. import mgmt
 
 PROP = "C15"
+MAXLVL = 10                     # RoleManager max_hierarchy_level: has_link follows fewer than 10 assignments
+A = mgmt.ATOMS.a
+DEEP = [A("r%d" % i) for i in range(1, 15)]    # interned at import time so that replays decode the same atoms
 
 
+# ----------------------------------------------------------------------------- non-termination guard
+class NonTermination(Exception):
+    pass
+
+
+def _alarm(signum, frame):
+    raise NonTermination("RBAC query did not return within the time limit")
+
+
+_depth = [0]
+_limit = [2.0]      # CPU seconds (ITIMER_VIRTUAL: not affected by machine load); a healthy query needs ~1 ms
+
+
+def _guarded(name):
+    base = getattr(casbin.Enforcer, name)
+
+    def wrapped(self, *a, **kw):
+        if _depth[0]:                       # enforce called from get_implicit_users_for_permission: outer timer runs
+            return base(self, *a, **kw)
+        _depth[0] = 1
+        old = signal.signal(signal.SIGVTALRM, _alarm)
+        signal.setitimer(signal.ITIMER_VIRTUAL, _limit[0])
+        try:
+            return base(self, *a, **kw)
+        except NonTermination:
+            _limit[0] = 0.5                 # the walk is known to hang now: do not spend 2 s per shrinking step
+            raise
+        finally:
+            signal.setitimer(signal.ITIMER_VIRTUAL, 0)
+            signal.signal(signal.SIGVTALRM, old)
+            _depth[0] = 0
+    wrapped.__name__ = name
+    return wrapped
+
+
+class GuardedEnforcer(casbin.Enforcer):
+    """the real Enforcer; the graph-walking queries run under a timer, so that a walk that no longer terminates (a
+    cycle in the role graph) is reported as a failing input instead of hanging the check"""
+    get_implicit_roles_for_user = _guarded("get_implicit_roles_for_user")
+    get_implicit_permissions_for_user = _guarded("get_implicit_permissions_for_user")
+    get_implicit_users_for_permission = _guarded("get_implicit_users_for_permission")
+    enforce = _guarded("enforce")
+
+
+IMPL_KW = dict(enforcer_cls=GuardedEnforcer)
+
+
+# ----------------------------------------------------------------------------- independent graph spec
 def reach_plus(edges, u):
     out, front = set(), {u}
     while front:
@@ -22,11 +87,37 @@ def reach_plus(edges, u):
     return out
 
 
-def query_ops(kind, uni):
+def depth_ok(edges, u):
+    """everything reachable from u is reachable in fewer than MAXLVL assignments (shallow, Props/C15.v)"""
+    dist, front, seen = 0, {u}, {u}
+    while front:
+        nxt = {b for a, b in edges if a in front} - seen
+        if not nxt:
+            return True
+        dist += 1
+        if dist >= MAXLVL:
+            return False
+        seen |= nxt
+        front = nxt
+    return True
+
+
+def subjects_of(kind, rows):
+    uni = mgmt.Universe(kind)
+    subs = list(uni.subs)
+    for pt, r in rows:
+        for x in (r[:2] if pt == 1 else [r[kind.i_sub]]):
+            if x not in subs:
+                subs.append(x)
+    return uni, subs
+
+
+def query_ops(kind, rows):
+    uni, subs = subjects_of(kind, rows)
     ops = []
     doms = uni.doms if kind.dom else [0]
     for d in doms:
-        for u in uni.subs:
+        for u in subs:
             ops.append((60, u, d))
             ops.append((61, u, d))
             if kind.dom:
@@ -38,146 +129,241 @@ def query_ops(kind, uni):
             for a in uni.acts:
                 ops.append((62, [d, o, a] if kind.dom else [o, a]))
     if not kind.dom:
-        for u in uni.subs:
+        for u in subs:
             ops += [(55, u), (56, u)]
     return ops
 
 
 def spec_check(kind, rows, lf, ops, obs, impl):
+    """returns [(step, message)] for the first violated clause"""
     res = {}
     for i, (op, o) in enumerate(zip(ops, obs)):
-        res[(op[0],) + tuple(tuple(x) if isinstance(x, list) else x for x in op[1:])] = (i, o[0])
+        if op[0] < 50:
+            continue
+        key = (op[0],) + tuple(tuple(x) if isinstance(x, list) else x for x in op[1:])
+        res[key] = (i, o[0])
+        if o[0][0] != 0:
+            return [(i, "an RBAC query raised or did not terminate on a well-formed policy")]
     p = obs[-1][3]
     g = obs[-1][4]
-    uni = mgmt.Universe(kind)
-    doms = uni.doms if kind.dom else [0]
-    out = []
+    i_sub, i_dom, i_obj, i_act = kind.i_sub, kind.i_dom, kind.i_obj, kind.i_act
+    g_roles = {r[1] for r in g}
 
-    def val(key):
-        i, r = res[key]
-        return i, (r[1] if r[0] == 0 else None)
+    def edges_of(d):
+        return {(r[0], r[1]) for r in g if (not kind.dom or r[2] == d)}
 
-    for d in doms:
-        edges = {(r[0], r[1]) for r in g if (not kind.dom or r[2] == d)}
-        for u in uni.subs:
-            i, roles = val((60, u, d))
-            if roles is not None and set(roles) != reach_plus(edges, u):
-                return [(i, "get_implicit_roles_for_user is not the set of roles reachable from the user")]
-            if roles is not None and len(roles) != len(set(roles)):
+    for key, (i, r) in res.items():
+        c = key[0]
+        v = r[1]
+        if c == 60:
+            u, d = key[1], key[2]
+            if len(v) != len(set(v)):
                 return [(i, "get_implicit_roles_for_user reports a role twice")]
-            j, perms = val((61, u, d))
-            for o_ in uni.objs:
-                for a in uni.acts:
-                    k, allowed = val((50, (u, d, o_, a) if kind.dom else (u, o_, a)))
-                    if perms is None or allowed is None:
-                        continue
-                    has = any(r[kind.i_obj] == o_ and r[kind.i_act] == a and (not kind.dom or r[kind.i_dom] == d) for r in perms)
-                    if bool(allowed) != has:
-                        return [(k, "enforce disagrees with get_implicit_permissions_for_user")]
-        # users for permission
-        g_roles = {r[1] for r in g}
-        cand = []
-        for r in g:
-            if r[0] not in cand:
-                cand.append(r[0])
-        for r in p:
-            if r[kind.i_sub] not in cand:
-                cand.append(r[kind.i_sub])
-        cand = [c for c in cand if c not in g_roles]
-        for o_ in uni.objs:
-            for a in uni.acts:
-                i, users = val((62, (d, o_, a) if kind.dom else (o_, a)))
-                if users is None:
-                    continue
-                if len(users) != len(set(users)):
-                    return [(i, "get_implicit_users_for_permission reports a user twice")]
-                for u in users:
-                    if u in g_roles:
-                        return [(i, "get_implicit_users_for_permission reports a role")]
-                want = []
-                for u in cand:
-                    key = (50, (u, d, o_, a) if kind.dom else (u, o_, a))
-                    if key in res:
-                        ok = res[key][1]
-                        if ok[0] == 0 and ok[1]:
-                            want.append(u)
-                    else:
-                        want = None
-                        break
-                if want is not None and sorted(users) != sorted(want):
-                    return [(i, "get_implicit_users_for_permission is not exactly the non-role subjects that enforce allows")]
-        # inverse views
-        for u in uni.subs:
-            for r_ in uni.subs:
-                if kind.dom:
-                    i, roles = val((57, u, d))
-                    j, users = val((58, r_, d))
-                else:
-                    i, roles = val((55, u))
-                    j, users = val((56, r_))
-                if roles is None or users is None:
-                    continue
-                if (r_ in roles) != (u in users):
-                    return [(j, "get_users_for_role and get_roles_for_user are not inverse views")]
-    return out
+            if set(v) != reach_plus(edges_of(d), u):
+                return [(i, "get_implicit_roles_for_user is not the set of roles reachable from the user")]
+        elif c == 61:
+            u, d = key[1], key[2]
+            who = {u} | reach_plus(edges_of(d), u)
+            want = [x for x in p if x[i_sub] in who and (not kind.dom or x[i_dom] == d)]
+            if kind.dom and any(x[i_dom] != d for x in v):
+                return [(i, "get_implicit_permissions_for_user reports a rule of another domain")]
+            if sorted(map(tuple, set(map(tuple, v)))) != sorted(map(tuple, want)):
+                return [(i, "get_implicit_permissions_for_user is not exactly the rules of the user and of its reachable roles")]
+        elif c == 50:
+            req = key[1]
+            u, d, o_, a = (req[0], req[1], req[2], req[3]) if kind.dom else (req[0], 0, req[1], req[2])
+            pk = (61, u, d)
+            if pk in res and depth_ok(edges_of(d), u):
+                perms = res[pk][1][1]
+                has = any(x[i_obj] == o_ and x[i_act] == a for x in perms)
+                if bool(v) != has:
+                    return [(i, "enforce disagrees with get_implicit_permissions_for_user")]
+        elif c == 62:
+            perm = list(key[1])
+            if len(v) != len(set(v)):
+                return [(i, "get_implicit_users_for_permission reports a user twice")]
+            if any(u in g_roles for u in v):
+                return [(i, "get_implicit_users_for_permission reports a role")]
+            cand = []
+            for x in [r_[0] for r_ in g] + [r_[i_sub] for r_ in p]:
+                if x not in cand and x not in g_roles:
+                    cand.append(x)
+            want = []
+            for u in cand:
+                k2 = (50, tuple([u] + perm))
+                if k2 not in res:
+                    want = None
+                    break
+                if res[k2][1][1]:
+                    want.append(u)
+            if want is not None and sorted(v) != sorted(want):
+                return [(i, "get_implicit_users_for_permission is not exactly the non-role subjects that enforce allows")]
+        elif c in (55, 57):
+            u, d = key[1], (key[2] if c == 57 else 0)
+            if len(v) != len(set(v)):
+                return [(i, "get_roles_for_user reports a role twice")]
+            if set(v) != {b for a_, b in edges_of(d) if a_ == u}:
+                return [(i, "get_roles_for_user is not the set of roles assigned to the user by the grouping rules")]
+        elif c in (56, 58):
+            r_, d = key[1], (key[2] if c == 58 else 0)
+            if len(v) != len(set(v)):
+                return [(i, "get_users_for_role reports a user twice")]
+            if set(v) != {a_ for a_, b in edges_of(d) if b == r_}:
+                return [(i, "get_users_for_role is not the set of users assigned to the role by the grouping rules")]
+            # inverse view, stated directly on the two observations
+            for u in v:
+                k2 = (57, u, d) if c == 58 else (55, u)
+                if k2 in res and r_ not in res[k2][1][1]:
+                    return [(i, "get_users_for_role and get_roles_for_user are not inverse views")]
+    for key, (i, r) in res.items():
+        if key[0] in (55, 57):
+            u, d = key[1], (key[2] if key[0] == 57 else 0)
+            for ro in r[1]:
+                k2 = (58, ro, d) if key[0] == 57 else (56, ro)
+                if k2 in res and u not in res[k2][1][1]:
+                    return [(i, "get_users_for_role and get_roles_for_user are not inverse views")]
+    return []
+
+
+# ----------------------------------------------------------------------------- case generators
+def link_alphabet(kind):
+    subs = [A("alice"), A("bob"), A("admin"), A("editor")]
+    d = [A("d1")] if kind.dom else []
+    return [[a, b] + d for a in subs[:3] for b in subs[1:] if a != b]
+
+
+def rule_alphabet(kind):
+    subs = [A("alice"), A("bob"), A("admin"), A("editor")]
+    d = [A("d1")] if kind.dom else []
+    return [[s] + d + [A("data1"), A("read")] for s in subs] + [[A("admin")] + d + [A("data2"), A("write")]]
 
 
 def exhaustive_rows(kind, max_g, max_p):
-    A = mgmt.ATOMS.a
-    subs = [A("alice"), A("bob"), A("admin"), A("editor")]
-    d = [A("d1")] if kind.dom else []
-    glinks = [[a, b] + d for a in subs[:3] for b in subs[1:] if a != b]
-    prules = [[s] + d + [A("data1"), A("read")] for s in subs] + [[A("admin")] + d + [A("data2"), A("write")]]
-    for ng in range(0, max_g + 1):
+    glinks, prules = link_alphabet(kind), rule_alphabet(kind)
+    for ng in range(0, min(max_g, len(glinks)) + 1):
         for gs in itertools.combinations(glinks, ng):
-            for np_ in range(1, max_p + 1):
+            for np_ in range(1, min(max_p, len(prules)) + 1):
                 for ps in itertools.combinations(prules, np_):
                     yield [(1, r) for r in gs] + [(0, r) for r in ps]
 
 
-def run(chk, n, max_g, max_p, cap):
+def shape_rows(kind):
+    """role graphs whose shape matters to a graph walk: self-loop, 2- and 3-cycles (with a tail), diamond, chain, a role
+    that is also a user of itself through a cycle; in the domain model a copy of part of the graph sits in the other domain"""
+    al, bo, ad, ed = A("alice"), A("bob"), A("admin"), A("editor")
+    shapes = {
+        "self_loop": [(al, al), (al, ad)],
+        "two_cycle": [(al, ad), (ad, al)],
+        "two_cycle_tail": [(bo, al), (al, ad), (ad, al), (ad, ed)],
+        "three_cycle": [(al, bo), (bo, ad), (ad, al)],
+        "diamond": [(al, bo), (al, ad), (bo, ed), (ad, ed)],
+        "chain": [(al, bo), (bo, ad), (ad, ed)],
+        "fan_in": [(al, ed), (bo, ed), (ad, ed)],
+    }
+    prules = rule_alphabet(kind)
+    for name, links in shapes.items():
+        for np_ in (1, 2):
+            for ps in itertools.combinations(prules, np_):
+                if kind.dom:
+                    d1, d2 = A("d1"), A("d2")
+                    gs = [[a, b, d1] for a, b in links] + [[b, a, d2] for a, b in links[:2]]
+                    extra = [(0, [ed, d2, A("data1"), A("read")])]
+                else:
+                    gs = [[a, b] for a, b in links]
+                    extra = []
+                yield [(1, r) for r in gs] + [(0, r) for r in ps] + extra
+
+
+def deep_rows(kind, rng, n):
+    """chains alice -> r1 -> ... -> rN around the depth bound (N = 7..12), optionally with a shortcut or a back edge;
+    permissions sit on the last three roles"""
+    al = A("alice")
+    out = []
+    for _ in range(n):
+        N = rng.choice([7, 8, 9, 9, 10, 10, 11, 12])
+        d = [rng.choice([A("d1"), A("d2")])] if kind.dom else []
+        names = [al] + DEEP[:N]
+        links = [[a, b] + d for a, b in zip(names, names[1:])]
+        x = rng.random()
+        if x < 0.3:
+            i = rng.randrange(0, N - 1)
+            links.append([names[i], names[rng.randrange(i + 2, N + 1)]] + d)       # shortcut
+        elif x < 0.5:
+            i = rng.randrange(1, N + 1)
+            links.append([names[i], names[rng.randrange(0, i)]] + d)               # back edge: a cycle
+        rng.shuffle(links)
+        ps = [[names[N]] + d + [A("data1"), A("read")], [names[N - 1]] + d + [A("data2"), A("read")],
+              [names[N - 2]] + d + [A("data1"), A("write")]]
+        if kind.dom:
+            other = A("d2") if d[0] == A("d1") else A("d1")
+            links.append([al, names[N], other])
+            ps.append([names[N], other, A("data2"), A("write")])
+        out.append([(1, r) for r in links] + [(0, r) for r in ps])
+    return out
+
+
+def key_fn(k, r, o):
+    return (k.name, repr(r)) if any(pt == 1 for pt, _ in r) else None
+
+
+def run(chk, n_random, max_g, max_p, cap, n_deep):
     rng = chk.rng
+    strata = chk.extra.setdefault("strata", {})
+    full_cover = True
     for kn in ("rbac", "dom"):
         kind = mgmt.KINDS[kn]
-        uni = mgmt.Universe(kind)
-        q = query_ops(kind, uni)
         allrows = list(exhaustive_rows(kind, max_g, max_p))
         full = len(allrows)
-        if len(allrows) > cap:
+        if cap is not None and full > cap:
             allrows = rng.sample(allrows, cap)
-        cases = [(rows, True, q) for rows in allrows]
-        mgmt.run_cases(chk, kind, cases, spec_check, label=f"enumerated-{kn}",
-                       key_fn=lambda k, r, o: (k.name, repr(r)) if any(pt == 1 for pt, _ in r) else None)
-        chk.extra.setdefault("strata", {})[f"enumerated_{kn}"] = dict(run=len(cases), of=full)
+            full_cover = False
+        cases = [(rows, True, query_ops(kind, rows)) for rows in allrows]
+        mgmt.run_cases(chk, kind, cases, spec_check, label=f"enumerated-{kn}", key_fn=key_fn, impl_kwargs=IMPL_KW)
+        strata[f"enumerated_{kn}"] = dict(run=len(cases), of=full, max_links=max_g, max_rules=max_p)
+        cases = [(rows, True, query_ops(kind, rows)) for rows in shape_rows(kind)]
+        mgmt.run_cases(chk, kind, cases, spec_check, label=f"shapes-{kn}", key_fn=key_fn, impl_kwargs=IMPL_KW)
+        strata[f"shapes_{kn}"] = len(cases)
+        cases = [(rows, True, query_ops(kind, rows)) for rows in deep_rows(kind, rng, n_deep)]
+        mgmt.run_cases(chk, kind, cases, spec_check, label=f"depth-bound-{kn}", key_fn=key_fn, impl_kwargs=IMPL_KW)
+        strata[f"depth_bound_{kn}"] = len(cases)
         cases = []
-        for _ in range(n):
-            g = mgmt.Gen(rng, kind)
-            rows = g.rows(rng.randint(2, 12))
-            cases.append((rows, True, q))
-        mgmt.run_cases(chk, kind, cases, spec_check, label=f"random-{kn}",
-                       key_fn=lambda k, r, o: (k.name, repr(r)) if any(pt == 1 for pt, _ in r) else None)
-        chk.extra["strata"][f"random_{kn}"] = len(cases)
+        for _ in range(n_random):
+            gen = mgmt.Gen(rng, kind)
+            rows = gen.rows(rng.randint(2, 14))
+            cases.append((rows, True, query_ops(kind, rows)))
+        mgmt.run_cases(chk, kind, cases, spec_check, label=f"random-{kn}", key_fn=key_fn, impl_kwargs=IMPL_KW)
+        strata[f"random_{kn}"] = len(cases)
+    return full_cover
 
 
 def main():
     chk = Check(PROP)
-    chk.rule = ("policies = subsets of 9 role links over {alice,bob,admin,editor} (cycles and chains included) x subsets of 5 "
-                "permission rules (enumerated; sampled down to the stated cap in the quick tier) plus random policies of up "
-                "to 12 rows over 4 subjects x 2 objects x 2 actions [x 2 domains]; every query of the RBAC API for every "
-                "user/object/action/domain, cross-checked against enforce; non-trivial = the policy has at least one role "
-                "link; distinct by (kind, policy)")
-    chk.assumptions = ["hierarchies are within the depth bound (universe of 4 names < max_hierarchy_level 10)",
-                       "allow-override effect and the standard RBAC matcher shapes (the property's premise)"]
-    chk.trusted = ["hand-written models coq/theories/{Policy,RoleGraph,Mgmt}.v tied by the differential history correspondence"]
+    nl = len(link_alphabet(mgmt.KINDS["rbac"]))
+    nr = len(rule_alphabet(mgmt.KINDS["rbac"]))
+    chk.rule = (f"a case = a policy (RBAC and RBAC-with-domains) + EVERY query of the RBAC API for every subject x object x "
+                f"action x domain of its universe, each answer checked against an independent closure over the g rules and "
+                f"against the implementation's own enforce answers; strata: (1) ALL subsets of <= G of {nl} role links over "
+                f"{{alice,bob,admin,editor}} (2-cycles and chains included) x ALL non-empty subsets of <= P of {nr} permission "
+                f"rules (quick: G=3, P=2, complete; thorough: G={nl}, P={nr}, complete); (2) hand-picked shapes: self-loop, "
+                f"2-/3-cycle, cycle with tail, diamond, chain, fan-in, with a mirrored copy in a second domain; (3) chains of "
+                f"7..12 assignments around max_hierarchy_level=10 with shortcuts / back edges; (4) random policies of <= 14 rows "
+                f"over 4 subjects x 2 objects x 2 actions [x 2 domains]; non-trivial = the policy has at least one role link; "
+                f"distinct by (kind, policy)")
+    chk.assumptions = ["the enforce<->implicit-permission clause is only demanded where the hierarchy is within the depth bound "
+                       "(everything reachable from the user is reachable in < 10 assignments; computed independently per case); "
+                       "the other clauses are demanded everywhere",
+                       "names are non-empty strings; allow-override effect and the standard RBAC matcher shapes (the property's premise)"]
+    chk.trusted = ["hand-written models coq/theories/{Policy,RoleGraph,Mgmt}.v tied by the differential history correspondence",
+                   "the four graph-walking queries run under a 2 s CPU-time timer (subclass of casbin.Enforcer calling the real methods)"]
     chk.build(oracle_name="Mgmt")
     if chk.replay_file:
-        return mgmt.replay_case(chk, spec_check)
+        return mgmt.replay_case(chk, spec_check, impl_kwargs=IMPL_KW)
     if chk.tier == "thorough":
-        run(chk, 1500, 4, 3, 6000)
+        chk.exhaustive = run(chk, 1500, nl, nr, None, 200)
     else:
-        run(chk, 150, 3, 2, 350)
+        chk.exhaustive = run(chk, 120, 3, 2, None, 24)
         if chk.broken() and not chk.spec_failures:
-            run(chk, 600, 3, 3, 1500)
+            run(chk, 600, 4, 3, 3000, 120)
     chk.finish()
 
 
